@@ -292,6 +292,7 @@ int run_case(Reader& r, bool& nontrivial, std::string& desc) {
                    SAME(BracketsFormattedHexStringFrom((signed char)v), sfmt("(0x%x)", (unsigned)(unsigned char)v), "C13:Brackets-schar");
                    SAME(StringFrom((v & 1) != 0), std::string((v & 1) ? "true" : "false"), "C13:StringFrom-bool");
                    { char c = (char)(v & 0xff); std::string e; if (c) e.push_back(c); SAME(StringFrom(c), e, "C13:StringFrom-char"); }
+                   { SimpleString z((const char*)NULLPTR); SAME(z, std::string(""), "C13:construct-from-null"); V_CHECK(z.isEmpty() && z.size() == 0, "C13:construct-from-null", "not empty"); }
                    SAME(StringFromOrNull(NULLPTR), std::string("(null)"), "C13:StringFromOrNull"); SAME(StringFromOrNull(m[i].c_str()), m[i], "C13:StringFromOrNull");
                    SAME(StringFrom(*s[i]), m[i], "C13:StringFrom-SimpleString"); SAME(StringFrom(m[i]), m[i], "C13:StringFrom-stdstring"); SAME(StringFrom(nullptr), std::string("(null)"), "C13:StringFrom-nullptr");
                    desc += sfmt("ints(%llx);", (unsigned long long)v); break; }
